@@ -40,6 +40,8 @@ entity U in [G] { a?: Long, s?: String, e?: U } tags String;
 namespace NS { entity T; }
 action view, grp appliesTo { principal: [U, G], resource: [U, G, NS::T], context: { a?: Long, s?: String } };
 action "a" in [grp] appliesTo { principal: U, resource: U };
+action sub in [grp];
+action "b" in [sub] appliesTo { principal: [U], resource: [U, G], context: { a?: Long } };
 `
 
 // yieldGetter hands out entities and yields the processor at data-dependent points; it has
@@ -107,6 +109,21 @@ func c19build(seed uint64, round int) *c19world {
 		w.asts = append(w.asts, (*ast.Policy)(p.AST()))
 		w.texts = append(w.texts, render.CanonPolicy(mp))
 	}
+	// two of the schema-directed policies per world, from one text document
+	k1 := r.Intn(len(c19schemaPolicies))
+	k2 := (k1 + 1 + r.Intn(len(c19schemaPolicies)-1)) % len(c19schemaPolicies)
+	sdoc := c19schemaPolicies[k1] + "\n" + c19schemaPolicies[k2]
+	slist, serr := cedar.NewPolicyListFromBytes("s.cedar", []byte(sdoc))
+	if serr != nil {
+		panic("c19 schema policies: " + serr.Error())
+	}
+	for i, p := range slist {
+		id := cedar.PolicyID(fmt.Sprintf("s%d", i))
+		w.ps.Add(id, p)
+		w.ids = append(w.ids, id)
+		w.asts = append(w.asts, (*ast.Policy)(p.AST()))
+		w.texts = append(w.texts, []string{c19schemaPolicies[k1], c19schemaPolicies[k2]}[i])
+	}
 	env := gen.EnvFor(r, &m, false)
 	w.ents = bridge.ToEntityMap(env)
 	for k := 0; k < 3; k++ {
@@ -134,6 +151,30 @@ func c19build(seed uint64, round int) *c19world {
 	w.vstrict = validate.New(rs)
 	w.vperm = validate.New(rs, validate.WithPermissive())
 	return w
+}
+
+// c19fp is the fingerprint of everything the operations are handed: policies, ASTs, entities,
+// requests, values, schema and resolved schema, unexported fields included. The two Validator
+// objects are left out: they are the receivers of validate.*, not inputs, and a validator that
+// memoises under its own synchronisation would be correct code.
+func c19fp(w *c19world) string {
+	cp := *w
+	cp.vstrict, cp.vperm = nil, nil
+	return DeepPrint(&cp)
+}
+
+// c19schemaPolicies are written against c19schema and loaded from text (the parser's slices
+// have spare capacity, which is where an append into a shared slice goes unnoticed): action
+// lists of every length 1..8 over the action hierarchy, typed attribute and context access.
+var c19schemaPolicies = []string{
+	`permit(principal is U, action in [Action::"grp", Action::"view", Action::"a"], resource is U) when { principal.a > 1 && context.s like "x*" };`,
+	`forbid(principal in G::"g", action in Action::"grp", resource) unless { principal has a && resource has s };`,
+	`permit(principal, action in [Action::"sub", Action::"grp", Action::"view", Action::"b", Action::"a"], resource) when { context has a && context.a < 5 };`,
+	`permit(principal, action in [Action::"sub", Action::"sub", Action::"grp", Action::"view", Action::"b", Action::"a"], resource);`,
+	`permit(principal, action in [Action::"grp", Action::"sub", Action::"sub", Action::"grp", Action::"view", Action::"b", Action::"a"], resource);`,
+	`permit(principal == U::"a", action == Action::"b", resource == U::"b") when { principal.e.a == resource.a || principal.hasTag("t") && principal.getTag("t") == "v" };`,
+	`permit(principal, action in [Action::"sub"], resource) when { principal.nosuch };`,
+	`permit(principal, action in [Action::"grp", Action::"sub"], resource is NS::T);`,
 }
 
 const c19opKinds = 16
@@ -223,7 +264,8 @@ func c19run(w *c19world, kind, k int) (out string) {
 		}
 		return "?"
 	case 9:
-		return errStr(w.vstrict.Policy(string(w.ids[pi]), w.asts[pi])) + errStr(w.vperm.Policy(string(w.ids[pi]), w.asts[pi]))
+		vi := len(w.ids) - 1 - k%len(w.ids) // from the end: the schema-directed policies first
+		return errStr(w.vstrict.Policy(string(w.ids[vi]), w.asts[vi])) + errStr(w.vperm.Policy(string(w.ids[vi]), w.asts[vi]))
 	case 10:
 		return errStr(w.vstrict.Entities(w.ents)) + errStr(w.vperm.Request(req))
 	case 11:
@@ -278,19 +320,19 @@ func c19child(args []string) int {
 	for rd := first; rd < first+rounds; rd++ {
 		shared := c19build(seed, rd)
 		twin := c19build(seed, rd)
-		before := DeepPrint(shared)
+		before := c19fp(shared)
 		// solo results: on the twin when it is structurally identical to the shared world (so the
 		// shared objects stay untouched until the goroutines start); decoding a policy from JSON
 		// orders annotations / record keys by map iteration (C14's subject), in which case the
 		// twin is not identical and the solo results are taken from a clone built from the same
 		// decoded policies instead.
-		if DeepPrint(twin) != before {
+		if c19fp(twin) != before {
 			twin = c19build(seed, rd)
-			for tries := 0; tries < 50 && DeepPrint(twin) != before; tries++ {
+			for tries := 0; tries < 50 && c19fp(twin) != before; tries++ {
 				twin = c19build(seed, rd)
 			}
 		}
-		if DeepPrint(twin) != before {
+		if c19fp(twin) != before {
 			sum.Ops["rounds skipped: no identical twin (nondeterministic JSON decode order)"]++
 			continue
 		}
@@ -338,7 +380,7 @@ func c19child(args []string) int {
 		wg.Wait()
 		sum.Rounds++
 		sum.Goroutines += ng
-		if after := DeepPrint(shared); after != before {
+		if after := c19fp(shared); after != before {
 			sum.Mutations = append(sum.Mutations, map[string]any{"round": rd, "policies": shared.texts, "diff": firstDiff(before, after)})
 		}
 	}
@@ -381,7 +423,7 @@ func C19(c *mon.Ctx) {
 	nB := c.N(1500, 30000)
 	c.ParFor("immutability", nB, func(w *mon.W, i int) {
 		wd := c19build(c.Seed+7, i)
-		before := DeepPrint(wd)
+		before := c19fp(wd)
 		for kind := 0; kind < c19opKinds; kind++ {
 			out := c19run(wd, kind, i%6)
 			w.Evals(1)
@@ -390,7 +432,7 @@ func C19(c *mon.Ctx) {
 				w.Violation("read-only operation panics: "+c19opNames[kind], out, map[string]any{"policies": wd.texts})
 				return
 			}
-			if after := DeepPrint(wd); after != before {
+			if after := c19fp(wd); after != before {
 				w.Violation("read-only operation mutates its inputs: "+c19opNames[kind], c19opNames[kind]+" changed the shared objects: "+firstDiff(before, after), map[string]any{"policies": wd.texts, "operation": c19opNames[kind]})
 				return
 			}
